@@ -38,6 +38,7 @@ SPAWN = [
     {"kind": "ret", "pauses": 1},
     {"kind": "raise", "pauses": 1},
     {"kind": "raise", "pauses": 0},
+    {"kind": "raise_base", "pauses": 1},  # fails with a BaseException that is not an Exception
 ]
 
 
@@ -250,11 +251,12 @@ def execute(program, ch: Chooser) -> Result:  # noqa: C901, PLR0912
                     )
                 )
         nontrivial = cancelled or any(
-            b.get("ending", "return") != "return" or any(d["enter"] != "ok" or d["exit"] != "ok" for d in b.get("disp", [])) or any(s["kind"] == "raise" for s in b.get("spawns", []))
+            b.get("ending", "return") != "return" or any(d["enter"] != "ok" or d["exit"] != "ok" for d in b.get("disp", [])) or any(s["kind"].startswith("raise") for s in b.get("spawns", []))
             for b in _blocks(program["block"])
         )
         kinds = "+".join(b["kind"][0] + b.get("ending", "return")[:3] for b in _blocks(program["block"]))
         outcome = f"{kinds}/c={cancelled}/caught={'+'.join(type(r.caught.get(b['id'])).__name__[:6] for b in _blocks(program['block']))}"
+        viols.extend(r.library_errors())
         return Result(outcome, nontrivial, viols[:5], obs)
     finally:
         r.close()
